@@ -20,11 +20,11 @@ LEVEL_TEXT = {
     'C11': 'Every bit-level read/write/copy function of slice.rs and buffer.rs is verified by Verus against the naive bit-vector contract for all lengths, offsets, positions and contents (unbounded); histories follow by induction over the abstract view.',
     'C10': 'Every PackedWrite method is verified by Verus to emit exactly the X.691 bit pattern (spec functions transcribed from the standard) for all admissible arguments and to reject all others without writing; every PackedRead method against a functional decoder; unbounded in all arguments and lengths. Kani re-checks the fixed-width primitives on the compiled crate for all (lb, ub, v) (complete).',
     'C06': 'Post-condition r is Ok ==> admissible(args) proved by Verus for every PackedWrite entry point, with error kind and nothing written on rejection; Charset::is_valid proved equal to the X.680 alphabets for all chars (Kani, complete).',
-    'C03': 'Verus proofs of the real Scope step functions against functional contracts plus driver lemmas for any number of components and any presence pattern (stronger than the N <= 5 the property asks for). Unit uper: write_sequence/read_sequence, write_opt/read_opt, write_default/read_default of the real Writer/Reader impl start from and step through exactly the scopes the drivers reason about. Unit glue: the code the real proc macros emit for three zoo schemas (59 types) is verified to call the protocol once per component with constants consistent with the code and equal to the values derived by hand from the schema (bounded in programs, unbounded in values); for other schemas that contract stays a named assumption.',
+    'C03': 'Verus proofs of the real Scope step functions against functional contracts plus driver lemmas for any number of components and any presence pattern (stronger than the N <= 5 the property asks for). Unit uper: write_sequence/read_sequence, write_opt/read_opt, write_default/read_default of the real Writer/Reader impl start from and step through exactly the scopes the drivers reason about. Unit glue: the code the real proc macros emit for three zoo schemas (53 generated types) is verified to call the protocol once per component with constants consistent with the code and equal to the values derived by hand from the schema (bounded in programs, unbounded in values); for other schemas that contract stays a named assumption.',
     'C05': 'Verus proof of the reader step/driver for an arbitrary transmitted addition count versus the local count; skip_unknown_extension_additions (repair 1f34165) verified to terminate and to consume every unknown present addition; open types end exactly at their announced end; generated read_seq of the zoo verified against the glue contract (unit glue).',
     'C12': 'Verus proof of the resolution step (the four real Resolver impls) for all names and values, with the scope search abstracted to an uninterpreted lookup (named assumption): partial decision of the property, stated as such.',
     'C15': 'Verus proof over all (min, max) of the real selection functions (complete, loop free) plus a Kani re-check on the compiled code; absent lower bound is a recorded known finding.',
-    'C01': 'Layered: Verus proves (unbounded) the bit layer, every PER primitive pair with spec-level round-trip lemmas relative to arbitrary prefix/tail, the SEQUENCE presence protocol, the open-type wrapping, and in unit uper the real Writer/Reader impl and descriptor impls against compositional trait-level specs x_enc/x_dec with round-trip lemmas for Boolean/Integer/Enumerated/Option/Default; unit glue verifies the real macro output of a zoo of 59 types against the contracts assumed of generated code (protocol discipline, CHOICE dispatch, ENUMERATED and INTEGER round-trip theorems per generated type) -- not payload equality of generated SEQUENCEs, which together with all other schemas is covered by bounded stand-ins on real macro output (labelled, not counted). Three known findings for sizes >= 16K.',
+    'C01': 'Layered: Verus proves (unbounded) the bit layer, every PER primitive pair with spec-level round-trip lemmas relative to arbitrary prefix/tail, the SEQUENCE presence protocol, the open-type wrapping, and in unit uper the real Writer/Reader impl and descriptor impls against compositional trait-level specs x_enc/x_dec with round-trip lemmas for Boolean/Integer/Enumerated/Option/Default; unit glue verifies the real macro output of a zoo of 53 generated types against the contracts assumed of generated code (protocol discipline, CHOICE dispatch, ENUMERATED and INTEGER round-trip theorems per generated type) -- not payload equality of generated SEQUENCEs, which together with all other schemas is covered by bounded stand-ins on real macro output (labelled, not counted). Three known findings for sizes >= 16K.',
     'C02': 'Layered: bit-exact equality with X.691 spec functions is a Verus post-condition of every primitive writer, of the sequence/open-type machinery and of the API-level writers/descriptor impls for every constraint instantiation (compositional x_enc; unbounded, inside the profile); Kani re-checks fixed-width primitives; the constants emitted by the generator are checked for consistency on a zoo (unit glue) and the bit-exact composition of whole generated types is covered by a bounded zoo against hand-composed reference encodings (labelled).',
     'C04': 'Verus proves panic freedom, termination, cursor-in-bounds and the input frame on Ok and on Err for every function of the bit layer, the PER layer, the UPER scope/open-type helpers and 17 of the 19 methods of impl Reader for UperReader (for every constraint instantiation), and allocation bounds for the payload readers; Kani proves the DER/protobuf primitives total. Two string readers, ProtobufReader and the generated glue are outside the contracts (named), covered by a sampled search only.',
     'C19': 'The real reader helpers are verified by Verus in both feature configurations against one functional contract; every cfg-gated site is decided on every run by an ownership-based syntactic frame rule or by the dual verification; a differential trace of both builds is the counterexample engine.',
